@@ -15,8 +15,9 @@ CONSTANTS
   MaxFaults = 0
   Concurrent = FALSE
   WithRejects = FALSE
-  ExportOneIn = 1
+  ExportOneIn = 50
   RecoveryCrashes = FALSE
+  Batch = TRUE
 INVARIANTS NoViolation CacheCounterExact ChunksAbut DurableIsPrefix Export 
 VIEW View
 ALIAS Alias
